@@ -15,6 +15,7 @@
 -/
 import Golib.Layout.IR
 import Golib.Packs.Hand
+import Golib.Packs.Irregular
 import Golib.Gen.PackLayouts
 import Driver.Common
 import Std.Data.HashMap
@@ -137,13 +138,26 @@ def showOut (o : Out) : String :=
 
 /-! ### the layouts by type name -/
 
+def smBaseR : L :=
+  Packs.Irregular.SMBasePack.r Gen.Packs.CpuLinux.r Gen.Packs.MemoryLinux.r Gen.Packs.CpuWindow.r Gen.Packs.MemoryWindow.r
+
+/-- `SMBasePack.Write` dispatches on the dynamic type of Cpu/Memory: the writer layout of the record's OS class -/
+def smBaseW (os : Int) : L :=
+  if os = 2 then Packs.Irregular.SMBasePack.w os Gen.Packs.CpuWindow.w Gen.Packs.MemoryWindow.w
+  else Packs.Irregular.SMBasePack.w os Gen.Packs.CpuLinux.w Gen.Packs.MemoryLinux.w
+
 def hand : List (String × L × L) := [
   ("TagCountPack", Packs.Hand.TagCountPack.w, Gen.Packs.TagCountPack.r),
   ("TagLogPack", Packs.Hand.TagLogPack.w, Gen.Packs.TagLogPack.r),
   ("LogSinkPack", Packs.Hand.LogSinkPack.w, Gen.Packs.LogSinkPack.r),
   ("ParamPack", Packs.Hand.ParamPack.l, Packs.Hand.ParamPack.l),
   ("ExtensionPack", Packs.Hand.ExtensionPack.w, Packs.Hand.ExtensionPack.r),
-  ("EventPack", Packs.Hand.EventPack.l, Packs.Hand.EventPack.l)
+  ("EventPack", Packs.Hand.EventPack.l, Packs.Hand.EventPack.l),
+  ("CounterPack1", Packs.Irregular.CounterPack1.w, Packs.Irregular.CounterPack1.r),
+  ("StatGeneralPack", Packs.Irregular.StatGeneralPack.l, Packs.Irregular.StatGeneralPack.l),
+  ("StatGeneralPack1", Packs.Irregular.StatGeneralPack1.l, Packs.Irregular.StatGeneralPack1.l),
+  ("StatGeneralTable", Packs.Irregular.StatGeneralTable.l, Packs.Irregular.StatGeneralTable.l),
+  ("SMBasePack", .unknown "per OS", smBaseR)
 ]
 
 def isUnknown : L → Bool
@@ -164,7 +178,9 @@ def answer (line : String) : String :=
   match line.splitOn " " with
   | ["E", ty, rec] =>
     match table.get? ty, parseRecord rec with
-    | some (w, _), some m => hexOf (w.write (envOf m) "" (recOf m))
+    | some (w, _), some m =>
+      let w := if ty == "SMBasePack" then smBaseW (recOf m "OS").toInt else w
+      hexOf (w.write (envOf m) "" (recOf m))
     | none, _ => "no-layout"
     | _, none => "bad-record"
   | ["D", ty, hex] =>
